@@ -1,10 +1,42 @@
 package main
 
+// Replay / falsification on the real code.
+//
+// A failed obligation is an *undischarged proof*; to attach a concrete failing
+// input we generate an in-package Go test, inject it with `go test -overlay`
+// (nothing is written to /repo) and let it search for inputs on which the real
+// functions violate the clause.  The same harness runs the bounded stand-ins
+// (exhaustive enumeration up to a stated bound) for functions outside the
+// verifier's reach.
+
 import (
+	"bytes"
+	"context"
 	"encoding/json"
+	"fmt"
+	"go/ast"
+	goparser "go/parser"
+	"go/token"
+	"go/types"
 	"os"
+	"os/exec"
 	"path/filepath"
+	"sort"
+	"strconv"
+	"strings"
+	"time"
+
+	"golang.org/x/tools/go/ssa"
 )
+
+type Counterexample struct {
+	Confirmed bool     `json:"confirmed_on_real_code"`
+	Inputs    []string `json:"inputs,omitempty"`
+	Observed  string   `json:"observed,omitempty"`
+	How       string   `json:"how"`
+	TestFile  string   `json:"test_file,omitempty"`
+	Output    string   `json:"output,omitempty"`
+}
 
 // writeReplay records a failed obligation and tries to obtain a failing input on the real code.
 func writeReplay(w *World, prop string, r vcResult) replayResult {
@@ -12,14 +44,19 @@ func writeReplay(w *World, prop string, r vcResult) replayResult {
 	os.MkdirAll(dir, 0o755)
 	path := filepath.Join(dir, sanitizeFile(r.vc.Name)+".json")
 	smt := filepath.Join(dir, sanitizeFile(r.vc.Name)+".smt2")
-	os.WriteFile(smt, []byte(r.vc.Script), 0o644)
+	if r.vc.Script != "" {
+		os.WriteFile(smt, []byte(r.vc.Script), 0o644)
+	}
 	rec := map[string]any{
 		"property": prop, "obligation": r.vc.Name, "kind": r.vc.Kind, "function": r.vc.Fn, "clause": r.vc.Clause,
 		"source": r.vc.Pos, "solver_status": r.res.Status, "solver_output": truncate(r.res.Output, 4000),
 		"per_solver": r.res.All, "smt_script": smt,
 	}
 	confirmed := false
-	if cx := searchCounterexample(w, prop, r); cx != nil {
+	if r.res.cx != nil {
+		rec["counterexample"] = r.res.cx
+		confirmed = r.res.cx.Confirmed
+	} else if cx := searchCounterexample(w, prop, r); cx != nil {
 		rec["counterexample"] = cx
 		confirmed = cx.Confirmed
 	}
@@ -28,12 +65,344 @@ func writeReplay(w *World, prop string, r vcResult) replayResult {
 	return replayResult{Path: path, Confirmed: confirmed}
 }
 
-type Counterexample struct {
-	Confirmed bool     `json:"confirmed_on_real_code"`
-	Inputs    []string `json:"inputs"`
-	Observed  []string `json:"observed"`
-	How       string   `json:"how"`
-	TestFile  string   `json:"test_file,omitempty"`
+// ---------------------------------------------------------------- overlay test runner
+
+// runOverlayTest injects testSrc as <pkgdir>/verif_replay_test.go and runs it.
+func runOverlayTest(w *World, pkg *ssa.Package, testSrc string, timeout time.Duration) (string, error) {
+	dir := w.pkgDir(pkg)
+	tmp, err := os.MkdirTemp("", "govc-replay-*")
+	if err != nil {
+		return "", err
+	}
+	defer os.RemoveAll(tmp)
+	tf := filepath.Join(tmp, "verif_replay_test.go")
+	os.WriteFile(tf, []byte(testSrc), 0o644)
+	ov := map[string]any{"Replace": map[string]string{filepath.Join(dir, "verif_replay_test.go"): tf}}
+	ob, _ := json.Marshal(ov)
+	ovf := filepath.Join(tmp, "overlay.json")
+	os.WriteFile(ovf, ob, 0o644)
+	ctx, cancel := context.WithTimeout(context.Background(), timeout+30*time.Second)
+	defer cancel()
+	cmd := exec.CommandContext(ctx, "go", "test", "-overlay", ovf, "-vet=off", "-count=1", "-timeout", fmt.Sprintf("%ds", int(timeout.Seconds())), "-run", "^TestVerifReplay$", "-v", ".")
+	cmd.Dir = dir
+	cmd.Env = append(os.Environ(), "GOFLAGS=-mod=mod", "GOPROXY=off")
+	var out bytes.Buffer
+	cmd.Stdout = &out
+	cmd.Stderr = &out
+	err = cmd.Run()
+	return out.String(), err
 }
 
-func searchCounterexample(w *World, prop string, r vcResult) *Counterexample { return nil }
+// harvestStrings collects string literals from the package's sources (tests included) and testdata.
+func harvestStrings(w *World, pkg *ssa.Package, tests bool) []string {
+	dir := w.pkgDir(pkg)
+	seen := map[string]bool{}
+	var out []string
+	add := func(s string) {
+		if len(s) > 40 || seen[s] {
+			return
+		}
+		seen[s] = true
+		out = append(out, s)
+	}
+	ents, _ := os.ReadDir(dir)
+	fset := token.NewFileSet()
+	for _, e := range ents {
+		if !strings.HasSuffix(e.Name(), ".go") {
+			continue
+		}
+		if strings.HasSuffix(e.Name(), "_test.go") && !tests {
+			continue
+		}
+		f, err := goparser.ParseFile(fset, filepath.Join(dir, e.Name()), nil, 0)
+		if err != nil {
+			continue
+		}
+		ast.Inspect(f, func(n ast.Node) bool {
+			if bl, ok := n.(*ast.BasicLit); ok && bl.Kind == token.STRING {
+				if s, err := strconv.Unquote(bl.Value); err == nil {
+					add(s)
+				}
+			}
+			return true
+		})
+	}
+	if tests {
+		td := filepath.Join(dir, "testdata")
+		filepath.Walk(td, func(p string, info os.FileInfo, err error) error {
+			if err != nil || info.IsDir() || info.Size() > 1<<20 {
+				return nil
+			}
+			b, _ := os.ReadFile(p)
+			for _, f := range strings.Fields(string(b)) {
+				add(f)
+			}
+			return nil
+		})
+	}
+	sort.Strings(out)
+	return out
+}
+
+func goStringSlice(ss []string) string {
+	var b strings.Builder
+	b.WriteString("[]string{")
+	for i, s := range ss {
+		if i > 0 {
+			b.WriteString(", ")
+		}
+		b.WriteString(strconv.Quote(s))
+	}
+	b.WriteString("}")
+	return b.String()
+}
+
+// ---------------------------------------------------------------- law search (C01 style)
+
+const lawTestTmpl = `package %s
+
+import (
+	"fmt"
+	"testing"
+)
+
+func verifEnum(alpha string, maxLen int) []string {
+	out := []string{""}
+	prev := []string{""}
+	for l := 1; l <= maxLen; l++ {
+		var cur []string
+		for _, p := range prev {
+			for i := 0; i < len(alpha); i++ {
+				cur = append(cur, p+string(alpha[i]))
+			}
+		}
+		out = append(out, cur...)
+		prev = cur
+	}
+	return out
+}
+
+func TestVerifReplay(t *testing.T) {
+	%s
+	n := len(pool)
+	fmt.Printf("VERIF-POOL %%d\n", n)
+	evals := 0
+	sgn := func(x int) int { if x < 0 { return -1 }; if x > 0 { return 1 }; return 0 }
+	_ = sgn
+	// cache
+	c := make([][]int8, n)
+	for i := range c {
+		c[i] = make([]int8, n)
+		for j := range c[i] {
+			r := cmp(pool[i], pool[j])
+			evals++
+			if r < -1 || r > 1 {
+				fmt.Printf("VERIF-CX range a=%%s b=%%s -> %%d\n", show(pool[i]), show(pool[j]), r)
+				return
+			}
+			c[i][j] = int8(r)
+		}
+	}
+	for i := 0; i < n; i++ {
+		if c[i][i] != 0 {
+			fmt.Printf("VERIF-CX refl a=%%s -> %%d\n", show(pool[i]), c[i][i])
+			return
+		}
+		for j := 0; j < n; j++ {
+			if c[i][j] != -c[j][i] {
+				fmt.Printf("VERIF-CX antisym a=%%s b=%%s -> ab=%%d ba=%%d\n", show(pool[i]), show(pool[j]), c[i][j], c[j][i])
+				return
+			}
+		}
+	}
+	for i := 0; i < n; i++ {
+		for j := 0; j < n; j++ {
+			if c[i][j] > 0 {
+				continue
+			}
+			for k := 0; k < n; k++ {
+				evals++
+				if c[j][k] > 0 {
+					continue
+				}
+				if c[i][k] > 0 || ((c[i][j] < 0 || c[j][k] < 0) && c[i][k] >= 0) {
+					fmt.Printf("VERIF-CX trans a=%%s b=%%s c=%%s -> ab=%%d bc=%%d ac=%%d\n", show(pool[i]), show(pool[j]), show(pool[k]), c[i][j], c[j][k], c[i][k])
+					return
+				}
+			}
+		}
+	}
+	fmt.Printf("VERIF-OK evals=%%d pool=%%d\n", evals, n)
+}
+`
+
+// lawHarness builds the pool/cmp/show prologue for function fn's comparator clause.
+// mode "api": pool of parsed versions; mode "direct": pool over the parameter types.
+func lawHarness(w *World, fn *ssa.Function, cl *Clause, alpha string, maxLen int, extraPool []string) (string, string, bool) {
+	pkg := fn.Pkg
+	idx := map[string]int{}
+	for i, p := range fn.Params {
+		idx[p.Name()] = i
+	}
+	// receiver-style Compare on *Version: API pool
+	if len(cl.left) == 1 && len(fn.Params) == 2 {
+		pt := fn.Params[idx[cl.left[0]]].Type()
+		if p, ok := pt.(*types.Pointer); ok {
+			if nt, ok := p.Elem().(*types.Named); ok && nt.Obj().Name() == "Version" {
+				var src string
+				if alpha != "" {
+					src = fmt.Sprintf("strs := verifEnum(%q, %d)\n", alpha, maxLen)
+				} else {
+					src = "strs := " + goStringSlice(append(harvestStrings(w, pkg, true), extraPool...)) + "\n"
+				}
+				src += `	var pool []*Version
+	e := &Ecosystem{}
+	seen := map[string]bool{}
+	for _, s := range strs {
+		if v, err := e.NewVersion(s); err == nil && v != nil && !seen[s] {
+			seen[s] = true
+			pool = append(pool, v)
+		}
+	}
+	if len(pool) > 400 { pool = pool[:400] }
+	cmp := func(a, b *Version) int { return a.Compare(b) }
+	show := func(a *Version) string { return fmt.Sprintf("%q", a.String()) }
+`
+				return src, "api: versions parsed by the real NewVersion, compared by the real Compare", true
+			}
+		}
+	}
+	// direct: all left params must be string/int
+	type pinfo struct {
+		name string
+		typ  types.Type
+	}
+	var ps []pinfo
+	for _, nm := range cl.left {
+		ps = append(ps, pinfo{nm, fn.Params[idx[nm]].Type()})
+	}
+	var fields, ctor []string
+	for i, p := range ps {
+		switch {
+		case isString(p.typ):
+			fields = append(fields, fmt.Sprintf("f%d string", i))
+		case isInteger(p.typ):
+			fields = append(fields, fmt.Sprintf("f%d int", i))
+		default:
+			return "", "", false
+		}
+	}
+	if fn.Signature.Recv() != nil || len(fn.Params) != 2*len(ps) {
+		return "", "", false
+	}
+	var src strings.Builder
+	fmt.Fprintf(&src, "type tup struct { %s }\n", strings.Join(fields, "; "))
+	if alpha != "" {
+		fmt.Fprintf(&src, "\tstrs := verifEnum(%q, %d)\n", alpha, maxLen)
+	} else {
+		hs := harvestStrings(w, pkg, false)
+		var short []string
+		for _, s := range hs {
+			if len(s) <= 12 && !strings.ContainsAny(s, "%\n") {
+				short = append(short, s)
+			}
+		}
+		short = append(short, "0", "1", "2", "9", "10", "01", "007", "a", "b", "rc", "-5", "+5", "99999999999999999999", "00000000000000000000001", "18446744073709551616", "~", "~a", "z")
+		short = append(short, extraPool...)
+		if len(short) > 90 {
+			short = short[:90]
+		}
+		fmt.Fprintf(&src, "\tstrs := %s\n", goStringSlice(short))
+	}
+	src.WriteString("\tints := []int{-1, 0, 1, 2, 3, 9, 10, 99, 1000}\n\t_ = ints\n\tvar pool []tup\n")
+	// cartesian product (bounded)
+	src.WriteString("\tpool = []tup{{}}\n")
+	for i, p := range ps {
+		dom := "strs"
+		conv := "s"
+		if isInteger(p.typ) {
+			dom = "ints"
+		}
+		fmt.Fprintf(&src, "\t{ var nx []tup; for _, t0 := range pool { for _, s := range %s { t1 := t0; t1.f%d = %s; nx = append(nx, t1) } }; pool = nx }\n", dom, i, conv)
+	}
+	src.WriteString("\tif len(pool) > 600 { step := len(pool)/600 + 1; var nx []tup; for i := 0; i < len(pool); i += step { nx = append(nx, pool[i]) }; pool = nx }\n")
+	args := make([]string, len(fn.Params))
+	for i := range ps {
+		args[idx[cl.left[i]]] = fmt.Sprintf("a.f%d", i)
+		args[idx[cl.right[i]]] = fmt.Sprintf("b.f%d", i)
+	}
+	_ = ctor
+	fmt.Fprintf(&src, "\tcmp := func(a, b tup) int { return %s(%s) }\n", fn.Name(), strings.Join(args, ", "))
+	src.WriteString("\tshow := func(a tup) string { return fmt.Sprintf(\"%#v\", a) }\n")
+	return src.String(), "direct: the real " + fn.Name() + " on enumerated argument tuples", true
+}
+
+func runLawSearch(w *World, fn *ssa.Function, cl *Clause, alpha string, maxLen int, timeout time.Duration, extraPool []string) *Counterexample {
+	prologue, how, ok := lawHarness(w, fn, cl, alpha, maxLen, extraPool)
+	if !ok {
+		return nil
+	}
+	src := fmt.Sprintf(lawTestTmpl, fn.Pkg.Pkg.Name(), prologue)
+	out, err := runOverlayTest(w, fn.Pkg, src, timeout)
+	cx := &Counterexample{How: how, Output: truncate(lastLines(out, 12), 2000)}
+	for _, ln := range strings.Split(out, "\n") {
+		if strings.HasPrefix(ln, "VERIF-CX ") {
+			cx.Confirmed = true
+			cx.Observed = strings.TrimPrefix(ln, "VERIF-CX ")
+			return cx
+		}
+		if strings.HasPrefix(ln, "VERIF-OK") {
+			cx.Observed = ln
+			return cx
+		}
+	}
+	if err != nil {
+		cx.Observed = "harness did not complete: " + err.Error()
+	}
+	return cx
+}
+
+func lastLines(s string, n int) string {
+	ls := strings.Split(strings.TrimSpace(s), "\n")
+	if len(ls) > n {
+		ls = ls[len(ls)-n:]
+	}
+	return strings.Join(ls, "\n")
+}
+
+// searchCounterexample dispatches on the obligation kind.
+func searchCounterexample(w *World, prop string, r vcResult) *Counterexample {
+	fn := w.funcs[r.vc.Fn]
+	if fn == nil {
+		return nil
+	}
+	if strings.HasPrefix(r.vc.Kind, "law.") {
+		ct := w.contractOf(fn)
+		if ct == nil {
+			return nil
+		}
+		for _, cl := range ct.clauses {
+			if cl.kind == "comparator" {
+				if cx := runLawSearch(w, fn, cl, "", 0, 120*time.Second, nil); cx != nil && cx.Confirmed {
+					return cx
+				}
+			}
+		}
+		// fall back to the package's API-level Compare
+		if cmpFn := w.funcs[shortPkg(fn.Pkg.Pkg)+".(*Version).Compare"]; cmpFn != nil && cmpFn != fn {
+			if cct := w.contractOf(cmpFn); cct != nil {
+				for _, cl := range cct.clauses {
+					if cl.kind == "comparator" {
+						return runLawSearch(w, cmpFn, cl, "", 0, 120*time.Second, nil)
+					}
+				}
+			}
+		}
+	}
+	if f := propFalsifiers[prop]; f != nil {
+		return f(w, fn, r)
+	}
+	return nil
+}
+
+var propFalsifiers = map[string]func(w *World, fn *ssa.Function, r vcResult) *Counterexample{}
